@@ -117,6 +117,12 @@ class ExBase:
             return r
         if v.kind == "static" and v.t is not None:
             return v.t
+        if v.kind == "static" and isinstance(v.py, tuple):
+            # a tuple display stored into the heap: a fresh tuple object holding the elements
+            seq = z3.Empty(SeqI)
+            for x in v.py:
+                seq = z3.Concat(seq, z3.Unit(self.to_ref(st, x)))
+            return self.new_list(st, seq, ty=T_TUPLE).t
         raise Unsupported("cannot box value %r" % (v,))
 
     def to_int(self, st, v):
